@@ -39,6 +39,8 @@ def worker_main(k, args, runs, entry, beat=None):
     path = os.path.join(args.out, f"{args.engine}.{k}.jsonl")
     faulthandler.enable(open(os.path.join(args.out, f"{args.engine}.{k}.fault"), "w"))
     signal.signal(signal.SIGALRM, _alarm)
+    from . import checks_registry as R
+    R.worker_init(args.check)
     t_end = args.t0 + args.budget
     with open(path, "a") as f:
         for run in runs:
